@@ -186,6 +186,10 @@ def auto_discharge(prog, site):
             return ("D1", "division by the non-zero constant %d" % _const(ops[0]))
         if msg in ("DivisionByZero", "RemainderByZero") and ops[0][0] == "phi" and all(_const(x) not in (None, 0) for x in ops[0][1]):
             return ("D1", "division by one of the non-zero constants %s" % [_const(x) for x in ops[0][1]])
+        if msg in ("DivisionByZero", "RemainderByZero"):
+            d = mir.strip(ops[0])
+            if d[0] == "field" and d[2] == "0" and d[1][0] == "bin" and d[1][1] == "AddWithOverflow" and any((_const(x) or 0) > 0 for x in (d[1][2], d[1][3])):
+                return ("D1", "divisor is x + c with c > 0 in an overflow-checked addition of unsigned values")
         if msg == "Overflow(Div)" and _const(ops[1]) not in (None, -1):
             return ("D1", "division by the constant %d" % _const(ops[1]))
         if msg == "Overflow(Rem)" and _const(ops[1]) not in (None, -1):
